@@ -17,6 +17,7 @@ CONSTANTS
   MaxOps = 4
   MaxLive = 3
   WithRestart = TRUE
+  SimPrint = FALSE
   DelW = 1
   RestartW = 1
   PartialOverlapChecked = FALSE
